@@ -35,11 +35,14 @@ func c12clone(t fixedtree.Tree) fixedtree.Tree {
 	return nt
 }
 
-func c12keys(n int, c *Ctx) []string {
+func c12keys(n int, c *Ctx, long bool) []string {
 	seen := map[string]bool{}
 	var keys []string
 	for len(keys) < n {
 		l := 1 + c.Intn(3)
+		if long { // keys longer than any key the repository itself uses (hash strings, UUIDs): 60..300 bytes
+			l = 60 + c.Intn(241)
+		}
 		b := c.Bytes(l)
 		for i := range b {
 			b[i] = "abcdefgh"[int(b[i])%8]
@@ -109,7 +112,8 @@ func runC12(c *Ctx) error {
 		return strings.Join(o, ",")
 	}
 	for n := 1; n <= maxN; n++ {
-		keys := c12keys(n, c)
+		long := n%8 == 5
+		keys := c12keys(n, c, long)
 		t, err := c12tree(keys)
 		if err != nil {
 			return err
@@ -143,18 +147,27 @@ func runC12(c *Ctx) error {
 						if nd != nil && !nd.IsEmpty() {
 							continue
 						}
-						fraw := append([]json.RawMessage{}, raw...)
-						fraw[slot] = json.RawMessage(`{"isempty":true,"key":"not-in-the-tree"}`)
-						fb, _ := json.Marshal(fraw)
-						var forged fixedtree.Proof
-						if json.Unmarshal(fb, &forged) != nil {
-							continue
-						}
-						c.Eval(1)
-						c.Count("forged-empty-slot", "tried")
-						if forged.IsValid(nil) == nil && forged.Prove("not-in-the-tree") == nil {
-							c.Violation("C12:key-outside-the-tree-proved", fmt.Sprintf("%s: the proof of %q, sent as JSON with its empty slot %d rewritten to carry the key \"not-in-the-tree\", proves that key", base, key, slot),
-								map[string]interface{}{"keys": keys, "key": key, "slot": slot, "proof_json": string(fb)})
+						for _, how := range []string{"empty-slot-with-key", "leaf-in-empty-slot"} {
+							fraw := append([]json.RawMessage{}, raw...)
+							fraw[slot] = json.RawMessage(`{"isempty":true,"key":"not-in-the-tree"}`)
+							if how == "leaf-in-empty-slot" { // a complete, self-consistent leaf where the honest path has nothing
+								lb, err := json.Marshal(fixedtree.NewBaseNode("not-in-the-tree").SetHash(valuehash.NewSHA256([]byte("not-in-the-tree"))))
+								if err != nil {
+									continue
+								}
+								fraw[slot] = lb
+							}
+							fb, _ := json.Marshal(fraw)
+							var forged fixedtree.Proof
+							if json.Unmarshal(fb, &forged) != nil {
+								continue
+							}
+							c.Eval(1)
+							c.Count("forged-empty-slot", how)
+							if forged.IsValid(nil) == nil && forged.Prove("not-in-the-tree") == nil {
+								c.Violation("C12:key-outside-the-tree-proved", fmt.Sprintf("%s: the proof of %q, sent as JSON with its empty slot %d rewritten (%s) to carry the key \"not-in-the-tree\", proves that key", base, key, slot, how),
+									map[string]interface{}{"keys": keys, "key": key, "slot": slot, "how": how, "proof_json": string(fb)})
+							}
 						}
 					}
 				}
@@ -218,6 +231,9 @@ func runC12(c *Ctx) error {
 				switch kind {
 				case "key":
 					nk := "yy" + string(rune('a'+i%20))
+					if long { // only the last byte of the long key changes
+						nk = old.Key()[:len(old.Key())-1] + map[bool]string{true: "q", false: "z"}[old.Key()[len(old.Key())-1] != 'q']
+					}
 					_ = mt.Set(uint64(i), fixedtree.NewBaseNode(nk).SetHash(old.Hash()))
 					arg = hx([]byte(nk))
 				case "hash":
